@@ -1367,9 +1367,12 @@ impl DtlsInner {
             if let Some(keys) = &ctx.session_keys {
                 let crypto = create_session_crypto(keys.clone())?;
                 let state = DtlsState::Connected(Arc::new(crypto), ctx.srtp_profile);
-                *self.state.lock() = state.clone();
+                // Initialise the record counters before `Connected` becomes visible:
+                // a concurrent send() that sees the state must not number its record
+                // from the still-zero epoch / sequence.
                 self.write_epoch.store(ctx.epoch, Ordering::SeqCst);
                 self.write_seq.store(ctx.sequence_number, Ordering::SeqCst);
+                *self.state.lock() = state.clone();
                 let _ = self.state_tx.send(state);
                 debug!("DTLS handshake complete (server role) (remote={})", self.conn.remote_addr.read());
                 // Clear ephemeral secret as handshake is complete
@@ -1400,9 +1403,10 @@ impl DtlsInner {
                         let crypto = create_session_crypto(keys.clone())?;
 
                         let state = DtlsState::Connected(Arc::new(crypto), ctx.srtp_profile);
-                        *self.state.lock() = state.clone();
+                        // Counters first, then the state (see the server branch).
                         self.write_epoch.store(ctx.epoch, Ordering::SeqCst);
                         self.write_seq.store(ctx.sequence_number, Ordering::SeqCst);
+                        *self.state.lock() = state.clone();
                         let _ = self.state_tx.send(state);
                         debug!("DTLS handshake complete (client role) (remote={})", self.conn.remote_addr.read());
                         ctx.local_secret = None;
